@@ -79,6 +79,24 @@ func (e *specEnv) trBool(x Expr) (res string) {
 	return v.t
 }
 
+// tryBool translates a clause; ok=false when it mentions identifiers unknown in this environment
+func (e *specEnv) tryBool(x Expr) (res string, ok bool) {
+	defer func() {
+		if r := recover(); r != nil {
+			if se, isSpec := r.(specErr); isSpec && strings.Contains(string(se), "unknown identifier") {
+				res, ok = "", false
+				return
+			}
+			panic(r)
+		}
+	}()
+	v := e.tr(x)
+	if v.typ == nil || !isBool(v.typ) {
+		e.fail("expected a boolean expression")
+	}
+	return v.t, true
+}
+
 var boolT = types.Typ[types.Bool]
 var f64T = types.Typ[types.Float64]
 
